@@ -156,6 +156,7 @@ class Check(Property):
         alt = (rng.choice([x for x in fam if x != ua] or fam), rng.choice(fam), rng.choice(fam))
         idx = rng.randint(0, 2)
         use_axis = rng.random() < 0.5
+        pos_axis = rng.random() < 0.5          # the axis given positionally instead of by keyword
         a, b, cq = Q(va, ua), Q(vb, ub), Q(vc, uc)
         if variant == 1:
             a, b, cq = a.to(alt[0]), b.to(alt[1]), cq.to(alt[2])
@@ -210,7 +211,9 @@ class Check(Property):
             args = (a,) if nin <= 1 else (a, b)
             if nin <= 1 and shape and name in ("sum", "nansum", "std", "nanstd", "var", "nanvar", "mean", "nanmean", "max", "min", "prod",
                                               "nanprod", "cumsum", "nancumsum", "median", "ptp", "argmax", "argmin", "sort", "all", "any"):
-                if use_axis:
+                if use_axis and pos_axis:
+                    args = (a, 0)
+                elif use_axis:
                     kw = {"axis": 0}
         return f, args, kw
 
@@ -463,7 +466,8 @@ class Check(Property):
                 return call(cons), cls.split(">")[1]
             if cls == "prod":
                 r = call(raw)
-                n = qs[0].magnitude.shape[kw["axis"]] if "axis" in kw else qs[0].magnitude.size
+                axis = kw["axis"] if "axis" in kw else (args[1] if len(args) > 1 and isinstance(args[1], int) else None)
+                n = qs[0].magnitude.shape[axis] if axis is not None else qs[0].magnitude.size
                 return r, first ** n
             if cls == "power":
                 return call(raw), first ** args[1]
